@@ -113,6 +113,7 @@ def rule_lang(locale, typ):
     """the bundle's first locale -> the CLDR rule set that applies: a region-specific rule set when CLDR has one for
     exactly this locale and type (cardinal pt-PT), else the rules of the language; unknown language: en"""
     table = CLDR_ORDINAL if typ == "ordinal" else CLDR_CARDINAL
+    locale = locale.split("+")[0]        # a locale chain: the FIRST locale decides
     if locale in table:
         return locale
     l = locale.split("-")[0].lower()
@@ -274,7 +275,7 @@ def usize_of(num_text):
 class C12(Base):
     ID = "C12"
     AREA = "num"
-    LEMMA_FILES = ["FluentProofs/Num.lean", "FluentProofs/NumOperands.lean", "FluentProofs/NumMerge.lean",
+    LEMMA_FILES = ["FluentProofs/BundleLocale.lean", "FluentProofs/Num.lean", "FluentProofs/NumOperands.lean", "FluentProofs/NumMerge.lean",
                    "FluentProofs/NumRules.lean"]
     RULE = ("case = bundle locale x value (number literal in the FTL source with sign / leading zeros / 0-18 fraction "
             "digits, argument of each of the 14 Rust number types, numeric string through try_number, "
@@ -468,6 +469,9 @@ class C12(Base):
     def gen_case(self, rng):
         val = self.gen_value(rng)
         loc = rng.choice(self.LOCALES) if rng.random() < 0.9 else rng.choice(["en", "ar", "lt", "pl", "ru"])
+        if rng.random() < 0.06:
+            # a locale CHAIN: the first locale decides, whatever follows (often one with richer rules)
+            loc = rng.choice([loc, "xx", "tlh", "en", "ja"]) + "+" + rng.choice(["pl", "ar", "ru", "lt", "cs"]) + rng.choice(["", "+en"])
         return "num %s %s %s %s" % (loc, val, self.gen_opts(rng), self.gen_keys(rng, val))
 
     def generate(self, rng, tier):
